@@ -817,9 +817,12 @@ def gen_iter(repo):
     return out + FOOTER, {'next': hashlib.sha256(n.encode()).hexdigest()}
 
 
-AUDIT_WORDS = [r'\bstatic\b(?!\s*str)', r'thread_local!', r'\bunsafe\b', r'\bCell\b', r'\bRefCell\b', r'\bUnsafeCell\b', r'\bMutex\b',
+AUDIT_WORDS = [r"(?<!')\bstatic\b", r'thread_local!', r'\bunsafe\b', r'\bCell\b', r'\bRefCell\b', r'\bUnsafeCell\b', r'\bMutex\b',
                r'\bRwLock\b', r'\bAtomic\w+', r'lazy_static', r'\bOnceCell\b', r'\bOnceLock\b', r'\bLazyLock\b', r'\bLazyCell\b',
-               r'\bRc\b', r'\*mut\b', r'\*const\b', r'\bextern\b']
+               r'\bRc\b', r'\*mut\b', r'\*const\b', r'\bextern\b',
+               # ambient inputs: anything that could make a sequence depend on more than flop, ranges and scope
+               r'HashMap::new\b', r'HashSet::new\b', r'\bRandomState\b', r'\bDefaultHasher\b', r'std::env\b', r'\benv::', r'std::time\b', r'\bInstant\b',
+               r'\bSystemTime\b', r'thread::current\b', r'\bThreadId\b', r'process::id\b', r'std::fs\b', r'\bFile::', r'\bstdin\b', r'\brand::']
 
 
 def audit(repo):
